@@ -8,7 +8,8 @@ let err_word (e : int) : string = match e with
   | 17 -> "expected_IPv4_address" | 18 -> "expected_hex_digits" | 19 -> "uneven_number_of_hex_digits"
   | 20 -> "expected_SshfpAlgorithm" | 21 -> "expected_SshfpType" | 22 -> "expected_TlsaCertificateUsage"
   | 23 -> "expected_TlsaSelector" | 24 -> "expected_TlsaMatchingType"
-  | 25 -> "trailing_Base_64_data" | 26 -> "illegal_Base_64_data" | 27 -> "incomplete_Base_64_data" | 99 -> "UNSUPPORTED" | n -> "E" ^ string_of_int n
+  | 25 -> "trailing_Base_64_data" | 26 -> "illegal_Base_64_data" | 27 -> "incomplete_Base_64_data"
+  | 28 -> "generic_data_has_incorrect_length" | 99 -> "UNSUPPORTED" | n -> "E" ^ string_of_int n
 let show_entry = function
   | ERecord (o, c, t, r, d) ->
     Printf.sprintf "R:%s:%d:%d:%d:%s" (hex_of_bytes o) (int_of_n c) (int_of_n t) (int_of_n r) (hex_of_bytes d)
